@@ -261,6 +261,7 @@ impl<'a> GeneratorState<'a> {
                                     && v.var_type != VariableType::CharPtr
                                 {
                                     self.asm(STX, left, pos, high_byte)?;
+                                    self.forget_memory_flags();
                                 } else {
                                     if self.acc_in_use {
                                         self.sasm(PHA)?;
@@ -294,6 +295,7 @@ impl<'a> GeneratorState<'a> {
                                         .syntax_error("Code too complex for the compiler", pos));
                                 }
                                 self.asm(STX, left, pos, high_byte)?;
+                                self.forget_memory_flags();
                                 self.tmp_in_use = true;
                                 return Ok(ExprType::Tmp(false));
                             }
@@ -344,6 +346,7 @@ impl<'a> GeneratorState<'a> {
                                 let v = self.compiler_state.get_variable(variable);
                                 if v.memory == VariableMemory::Zeropage {
                                     self.asm(STY, left, pos, high_byte)?;
+                                    self.forget_memory_flags();
                                 } else {
                                     if self.acc_in_use {
                                         self.sasm(PHA)?;
@@ -377,6 +380,7 @@ impl<'a> GeneratorState<'a> {
                                         .syntax_error("Code too complex for the compiler", pos));
                                 }
                                 self.asm(STY, left, pos, high_byte)?;
+                                self.forget_memory_flags();
                                 self.tmp_in_use = true;
                                 return Ok(ExprType::Tmp(false));
                             }
